@@ -147,7 +147,9 @@ type gWorld struct {
 	relQueries int // relation filters with a target queried through the generic API
 	illegal    int // illegal generic calls that were refused
 	illWeight  int
-	lateIDs    []ecs.ID // component types registered during the history (lateTypes)
+	lateIDs    []ecs.ID          // component types registered during the history (lateTypes)
+	maps       map[string]gMap   // MapN helper objects are created once per world and reused (also across ops)
+	exch       *generic.Exchange // the world's long-lived Exchange helper
 	Wg, Wc     *ecs.World
 	ids        []ecs.ID
 	ents       []*gEnt
@@ -374,7 +376,7 @@ func (g *gWorld) apply(op *gOp) string {
 		if relT < 0 || !targetOK(t) {
 			t = -2
 		}
-		m := ad.NewMap(g.Wg, rel...)
+		m := g.mapOf(ad, rel)
 		ids := g.mapIDs(ad.Types)
 		var hg, hc []ecs.Entity
 		known := g.known()
@@ -443,7 +445,7 @@ func (g *gWorld) apply(op *gOp) string {
 		if !ent.comps[ad.Types[0]] && false {
 			return ""
 		}
-		m := ad.NewMap(g.Wg, rel...)
+		m := g.mapOf(ad, rel)
 		got := m.Get(ent.h)
 		gotU := m.GetUnchecked(ent.h)
 		for i, t := range ad.Types {
@@ -469,7 +471,7 @@ func (g *gWorld) apply(op *gOp) string {
 		if relT < 0 || !targetOK(t) || op.K == "mapAssign" {
 			t = -2
 		}
-		m := ad.NewMap(g.Wg, rel...)
+		m := g.mapOf(ad, rel)
 		ids := g.mapIDs(ad.Types)
 		if op.K == "mapAdd" {
 			m.Add(ent.h, g.targetArg(t)...)
@@ -493,7 +495,7 @@ func (g *gWorld) apply(op *gOp) string {
 		if ad.NewMap == nil || ent == nil || !ent.alive || !g.entHasAll(ent, ad.Types) {
 			return ""
 		}
-		m := ad.NewMap(g.Wg, rel...)
+		m := g.mapOf(ad, rel)
 		m.Remove(ent.h)
 		g.Wc.Remove(ent.h, g.mapIDs(ad.Types)...)
 		for _, c := range ad.Types {
@@ -529,7 +531,7 @@ func (g *gWorld) apply(op *gOp) string {
 		}
 		fg := ecs.All(g.mapIDs(inc)...).Without(g.mapIDs(exc)...)
 		fc := ecs.All(g.mapIDs(inc)...).Without(g.mapIDs(exc)...)
-		m := ad.NewMap(g.Wg, rel...)
+		m := g.mapOf(ad, rel)
 		ids := g.mapIDs(ad.Types)
 		var cg, cc int
 		add, rem := ids, []ecs.ID(nil)
@@ -590,7 +592,7 @@ func (g *gWorld) apply(op *gOp) string {
 		if ad.NewMap == nil {
 			return ""
 		}
-		m := ad.NewMap(g.Wg, rel...)
+		m := g.mapOf(ad, rel)
 		cg := m.RemoveEntities(op.X)
 		mask := ecs.All(g.mapIDs(ad.Types)...)
 		var cc int
@@ -629,4 +631,17 @@ func (g *gWorld) apply(op *gOp) string {
 		return g.applyIll(op, ad)
 	}
 	return ""
+}
+
+// mapOf returns the world's long-lived MapN object of an adapter (created at first use).
+func (g *gWorld) mapOf(ad *gAdapter, rel []generic.Comp) gMap {
+	if g.maps == nil {
+		g.maps = map[string]gMap{}
+	}
+	if m, ok := g.maps[ad.Name]; ok {
+		return m
+	}
+	m := ad.NewMap(g.Wg, rel...)
+	g.maps[ad.Name] = m
+	return m
 }
